@@ -14,7 +14,7 @@ using namespace vh;
 static Result R;
 static Worker* W;
 
-extern "C" void verif_atomic_point(int, const void*) { fib::point(); }
+extern "C" void verif_atomic_point(int, const void*) { fib::point(); }   // every atomic access (also relaxed) is a scheduling point here
 extern "C" void verif_atomic_read(unsigned long long v) { fib::noteRead(v); }
 
 typedef TranspositionTable TT;
